@@ -39,6 +39,8 @@ RULE = ('one case = one group shape on one formula class (stream groups-*), one 
 TRUSTED = ['graph objects of cnfgen expose sorted duplicate-free neighbour lists (checked on every generated graph, property C16)',
            'Python str.format for automatic-numbering placeholders; float log2 for m < 2^29']
 
+# model variants (fixD2, fixD3, fixD34); the first is the code as it is
+VARIANTS = [(a, b, c) for c in (False, True) for b in (False, True) for a in (False, True)]
 WORDKIND = {'combinations': 'new_combinations', 'combinations_with_replacement': 'new_combinations_with_replacement',
             'permutations': 'new_permutations', 'words': 'new_words'}
 ALPHA = ['x', 'p_', 'e(', ')', ',', '[', ']', '=', ' ', 'v', '{', '}', '_{', '}}', '', '', 'Z', '-', '{}', 'q.', '#']
@@ -666,9 +668,8 @@ def run_histories(ctx, F_classes, ncases, given=None):
         for o in ops:
             ctx.tally('history op', o['op'] + ('/checked' if o.get('check') else '') +
                       ('/' + o['shape']['kind'] if o['op'] == 'new' else ''))
-        reqs.append(cmd('history_run', False, False, dflt_pieces, [op_sx(o) for o in ops]))
-        reqs.append(cmd('history_run', False, True, dflt_pieces, [op_sx(o) for o in ops]))
-        reqs.append(cmd('history_run', True, True, dflt_pieces, [op_sx(o) for o in ops]))
+        for flags in VARIANTS:
+            reqs.append(cmd('history_run', flags[0], flags[1], flags[2], dflt_pieces, [op_sx(o) for o in ops]))
         # ---- implementation
         F = C()
         steps = []
@@ -717,8 +718,9 @@ def run_histories(ctx, F_classes, ncases, given=None):
         hs.append(dict(descr=dict(cls=cname, default_label_format=dflt, ops=ops), steps=steps, events=events, varnames=vn, default_labels=dl,
                        nops=len(ops)))
     replies = ctx.model.batch(reqs)
+    nv = len(VARIANTS)
     for i, h in enumerate(hs):
-        compare_history(ctx, h, replies[3 * i], replies[3 * i + 1], replies[3 * i + 2])
+        compare_history(ctx, h, replies[nv * i:nv * i + nv])
 
 
 def shrink_ops_for_labels(descr, upto):
@@ -727,7 +729,8 @@ def shrink_ops_for_labels(descr, upto):
     return d
 
 
-def compare_history(ctx, h, rep, rep_fix3, rep_fix23):
+def compare_history(ctx, h, reps):
+    rep = reps[0]
     descr = h['descr']
     key = (descr['cls'], str(descr['ops']), descr['default_label_format'])
     ctx.count('histories-' + descr['cls'], key, h['nops'] >= 2, sample=descr)
@@ -776,11 +779,14 @@ def compare_history(ctx, h, rep, rep_fix3, rep_fix23):
     elif h['varnames'][0] == 'exc':
         viol_cex(ctx, 'writing the varname lines raised %s' % h['varnames'][1], descr, list(h['varnames']), 'varnames', 'raises')
     # correspondence with the model, step by step
-    for variant, r in (('as-is', rep), ('labels repaired', rep_fix3), ('labels and combinations_with_replacement repaired', rep_fix23)):
+    # the code as it is first; a tree in which some of the known defects (D2, D3, D34) are repaired agrees with
+    # the corresponding model variant and raises no alarm
+    first = None
+    for r in reps:
         diff = history_diff(h, r)
         if diff is None:
             return
-        if variant == 'as-is':
+        if first is None:
             first = diff
     ctx.disagreements_checked += 1
     si, field, got, want = first
